@@ -12,7 +12,7 @@ PROPERTY = "C19"
 LEVEL = "exploration"
 RULE = (
     "Schedule sampling: cases (kernel, shape from 1x1 to 64x8192, data seed) are drawn by Hypothesis up front (seeded "
-    "from VERIF_SEED) and each is executed under numba.set_num_threads(t) for t in {1,2,3,5,8,16} x "
+    "from VERIF_SEED) and each is executed under numba.set_num_threads(t) for t in {1,2,16} + three further counts rotating over 3..15 with the case (every count 1..16 is used across cases; shapes include sizes equal to, one off and multiples of the thread count) x "
     "set_parallel_chunksize(k) for k in {0,1,3,17} x R repetitions (R=6 quick / 40 thorough) for every multi-threaded "
     "kernel (extract_tim, extract_bpass, mask_channels, dedisperse, subband, remove_zerodm, invert_freq, "
     "compute_online_moments[_basic], downsample_1d/2d_mean_parallel) on inputs whose arithmetic is exact (uint8, "
@@ -28,7 +28,6 @@ ASSUMPTIONS = [
 
 KERNELS = ["extract_tim", "extract_bpass", "mask_channels", "dedisperse", "subband", "remove_zerodm", "invert_freq",
            "moments", "moments_basic", "down1d", "down2d"]
-THREADS = (1, 2, 3, 5, 8, 16)
 CHUNKS = (0, 1, 3, 17)
 
 
@@ -45,6 +44,8 @@ def case_strategy():
         st.tuples(st.integers(1, 4), st.integers(1, 6)),
         st.tuples(st.integers(1, 64), st.integers(1, 300)),
         st.tuples(st.sampled_from([1, 2, 16, 64]), st.sampled_from([1024, 4096, 8192])),
+        # sizes that are special for a work-splitting implementation: equal to / one off / multiples of the thread count
+        st.tuples(st.sampled_from([3, 7, 15, 16, 17, 31, 32, 33]), st.sampled_from([15, 16, 17, 32, 48, 255, 256, 257])),
     )
     return st.builds(lambda k, s, seed, dt: {"kernel": k, "nchans": s[0], "nsamps": s[1], "seed": seed, "dtype": dt},
                      st.sampled_from(KERNELS), shapes, st.integers(0, 2**31 - 1), st.sampled_from(["uint8", "float32"]))
@@ -191,7 +192,12 @@ def check(case, ctx):
     base = run_kernel(case, 1, 0)
     ctxt = f"kernel={case['kernel']} nchans={case['nchans']} nsamps={case['nsamps']} dtype={case['dtype']} seed={case['seed']}"
     nrun = 0
-    for t in THREADS:
+    # thread counts: 1, 2 and the maximum always, plus three more rotating with the case seed so that every count
+    # 1..16 is used across cases (the property quantifies over all of them)
+    others = [t for t in range(3, maxt) ]
+    rot = case["seed"] % max(1, len(others))
+    picked = sorted({1, 2, maxt} | {others[(rot + j * 5) % len(others)] for j in range(3)} if others else {1, 2, maxt})
+    for t in picked:
         if t > maxt:
             continue
         for k in CHUNKS:
@@ -242,7 +248,7 @@ def check(case, ctx):
         if py is not None and not (py.shape == o.shape and np.array_equal(np.asarray(py, dtype=np.float64), np.asarray(o, dtype=np.float64))):
             raise Violation(f"py_func:{case['kernel']}", f"{ctxt}: compiled parallel result differs from the kernel's sequential Python definition")
     iters = case["nsamps"] if case["kernel"] not in ("extract_bpass", "mask_channels", "moments", "moments_basic") else case["nchans"]
-    return Info(iters > 16, (case["kernel"], case["dtype"], "big" if case["nchans"] * case["nsamps"] > 50000 else "small"))
+    return Info(iters > 16, (case["kernel"], case["dtype"], "big" if case["nchans"] * case["nsamps"] > 50000 else "small") + tuple(f"threads={t}" for t in picked))
 
 
 def run_py(case):
